@@ -2,20 +2,20 @@
 from __future__ import annotations
 
 PROPERTY = "C14"
-ALPHABET = []
+ALPHABET = ["O", "N", "C", "*"]
 
 META = dict(
     bounds=dict(
-        quick="result cache: k<=3 batch entries (each a fresh substrate object whose lifetime ends before the next begins) "
-              "x r<=2 long-lived rules, cache sizes 1, 2 and unbounded, forward and backward; id() values of the substrate "
+        quick="result cache: k<=3 batch entries (each a fresh two-atom substrate graph with solver-chosen charge and hcount - look-alikes -, whose lifetime ends before the next begins) "
+              "x 1 (thorough 2) long-lived rules, cache sizes 1, 2 and unbounded, forward and backward; id() values of the substrate "
               "objects are solver variables under CPython's contract (objects alive together have distinct ids), contents "
               "are solver variables too; BatchReactor.fit (serial) on every order of a 4-entry batch with look-alike "
-              "substrates, cache on/off/tiny, dedupe on/off, against single-entry runs",
+              "substrates, cache on/off/tiny, dedupe on/off, against single-entry runs; batched versus one-shot clustering incl. an existing representative library in another order (two lists, harness shared with C13)",
         thorough="k<=4 entries x 3 rules",
     ),
     outside=["loky / ProcessPoolExecutor scheduling and worker counts (entry_n_jobs, rule_n_jobs > 1)",
              "AAMValidator.validate_smiles, dicts_balance_check, SynCRN.build(parallel=True): OS processes and RDKit",
-             "batched clustering versus one-shot clustering is decided by the C13 harness"],
+             "parallel validation / balance checking / network expansion"],
     stubs=["module attribute `id` of synkit.Synthesis.Reactor.batch_reactor: returns the modelled address of the object "
            "(solver-chosen for substrates, distinct constants for rules)",
            "_RuleApplier._execute overridden in a subclass by an uninterpreted tag of (substrate content, rule content, "
@@ -29,27 +29,40 @@ WALL = dict(quick=170, thorough=1500)
 MIN_PATHS = dict(quick=100, thorough=500)
 
 
-class Obj:
-    """stand-in for a graph object: identity matters, content is a tag"""
+def mk_substrate(el, charge, hcount, order):
+    """a two-atom substrate graph; what it *is* (its content) is the tuple of its labels"""
+    import networkx as nx
 
-    __slots__ = ("content", "__weakref__")
+    g = nx.Graph()
+    g.add_node(1, element=el, aromatic=False, hcount=hcount, charge=charge, atom_map=0)
+    g.add_node(2, element="C", aromatic=False, hcount=3, charge=0, atom_map=0)
+    g.add_edge(1, 2, order=order)
+    return g
 
-    def __init__(self, content):
-        self.content = content
+
+def content(g):
+    return (tuple(sorted((v, d["element"], d["charge"], d["hcount"], d["aromatic"]) for v, d in g.nodes(data=True))),
+            tuple(sorted((min(u, v), max(u, v), d["order"]) for u, v, d in g.edges(data=True))))
 
 
 def h_cache(E, k, r):
+    import networkx as nx
+
     from synkit.Synthesis.Reactor import batch_reactor as br
 
     class Applier(br._RuleApplier):
         __slots__ = ()
 
         def _execute(self, substrate, rule, inv):
-            return [("result-of", substrate.content, rule.content, bool(inv))]
+            return [("result-of", content(substrate), rule.graph["name"], bool(inv))]
 
     csize = int(E.choice("cache_max", [1, 2, 1000]))
     inv = bool(E.bool("invert"))
-    rules = [Obj("rule%d" % j) for j in range(r)]
+    rules = []
+    for j in range(r):
+        R = nx.Graph(name="rule%d" % j)
+        R.add_node(1, element="C")
+        rules.append(R)
     addr = {}
     for j, R in enumerate(rules):
         addr[id(R)] = 1000 + j
@@ -58,6 +71,7 @@ def h_cache(E, k, r):
     br.id = lambda o: addr[real_id(o)]
     applier = Applier("syn", strategy="bt", explicit_h=True, implicit_temp=False, cache_enabled=True, cache_maxsize=csize)
     try:
+        import gc
         import weakref
 
         from symx import AND, NOT, EQ
@@ -66,22 +80,27 @@ def h_cache(E, k, r):
         seen_addr = {}
         prev = []  # (weak reference, modelled address) of earlier substrates
         for i in range(k):
-            content = int(E.int("content%d" % i, 0, 1))
+            # look-alike substrates: same skeleton and atom order, labels chosen by the solver
+            el = "O"
+            ch = int(E.int("charge%d" % i, -1, 0))
+            hc = int(E.int("hcount%d" % i, 0, 1))
+            od = 1
             a_sym = E.int("addr%d" % i, 0, k - 1)
             # CPython contract: an address is handed out again only after its object has died; objects that something
             # (e.g. a cache entry) still references keep theirs
+            gc.collect()  # networkx graphs are in reference cycles with their cached views: only the collector frees them
             alive = [x for w, x in prev if w() is not None]
             E.assume(AND([NOT(EQ(a_sym, x)) for x in alive]))
             a = int(a_sym)
-            S = Obj("substrate-content-%d" % content)
+            S = mk_substrate(el, ch, hc, od)
             prev.append((weakref.ref(S), a))
             addr[real_id(S)] = a
-            if a in seen_addr and seen_addr[a] != content:
+            if a in seen_addr and seen_addr[a] != content(S):
                 reused = True
-            seen_addr[a] = content
+            seen_addr[a] = content(S)
             for R in rules:
                 got = applier(S, R, inv)
-                want = [("result-of", S.content, R.content, inv)]
+                want = [("result-of", content(S), R.graph["name"], inv)]
                 if E.check(got != want, "cached-call-returns-the-result-of-other-arguments",
                            dict(entry=i, got=got, want=want, cache_max=csize)):
                     return
@@ -96,8 +115,9 @@ def h_cache(E, k, r):
     E.observe(None)
 
 
-ENTRIES = ["CCl.O", "CBr.O", "CCl.O", "CO"]
-RULES = ["[C:2][Cl:3].[O:4][H:6]>>[C:2][O:4].[Cl:3][H:6]", "[C:1][Br:2].[O:3][H:4]>>[C:1][O:3].[Br:2][H:4]"]
+ENTRIES = ["CCl.O", "CBr.O", "CCl.O", "CCl.[OH-]", "CO"]
+RULES = ["[C:2][Cl:3].[O:4][H:6]>>[C:2][O:4].[Cl:3][H:6]", "[C:1][Br:2].[O:3][H:4]>>[C:1][O:3].[Br:2][H:4]",
+         "[C:1][Cl:2].[OH-:3]>>[C:1][OH:3].[Cl-:2]"]
 _single = {}
 
 
@@ -124,11 +144,20 @@ def h_batch(E, n):
     E.observe([o.get("count") for o in out])
 
 
-HARNESSES = {"cache": h_cache, "batch": h_batch}
+def h_cluster(E, shapes, use_attr):
+    """batched versus one-shot clustering, incl. an existing library held in another order (harness shared with C13)"""
+    from harness.c13 import h_cluster as hc
+
+    hc(E, shapes, use_attr)
+
+
+HARNESSES = {"cache": h_cache, "batch": h_batch, "cluster": h_cluster}
 
 
 def shards(tier, seed):
-    sh = [dict(h="cache", params=dict(k=2, r=1)), dict(h="cache", params=dict(k=3, r=2)), dict(h="batch", params=dict(n=3))]
+    sh = [dict(h="cache", params=dict(k=2, r=1)), dict(h="cache", params=dict(k=3, r=1)), dict(h="batch", params=dict(n=4)),
+          dict(h="cluster", params=dict(shapes=["K2", "P3", "E2"], use_attr=True)),
+          dict(h="cluster", params=dict(shapes=["K2", "E2", "K2"], use_attr=False))]
     if tier == "thorough":
-        sh += [dict(h="cache", params=dict(k=4, r=3)), dict(h="batch", params=dict(n=4))]
+        sh += [dict(h="cache", params=dict(k=3, r=2)), dict(h="batch", params=dict(n=5))]
     return sh
